@@ -14,7 +14,7 @@ From FV Require Import Base.Bytes Base.BytesLemmas Gen.Generated Codec.Varint Co
   Codec.ProtoProofs Parser.ReqModel Parser.ReqWire Parser.ReqTargets Parser.ReqDrive Parser.ReqRecords
   Parser.StreamModel Parser.AbsStream Parser.StreamRefine Parser.StreamInv Parser.EnvCanon
   Async.Conn Async.ConnWrites Async.ConnTotal Async.ConnReads Async.PeerProofs Async.PeerProofs2 Async.LogProofs Async.ReadsWTargets
-  Async.LoopTargets2 Async.LoopProofs2 Async.FrameTargets Async.FrameProofs Async.FrameFaultTargets.
+  Async.PeerTargets Async.PeerTargets2 Async.LoopTargets2 Async.LoopProofs2 Async.FrameTargets Async.FrameProofs Async.FrameFaultTargets.
 From Coq Require Import ZifyBool ZifyNat ZifyN.
 Ltac Zify.zify_post_hook ::= Z.div_mod_to_equations.
 
@@ -525,4 +525,106 @@ Proof.
   destruct (run_loop norm maxc fuel (new_parser B) scripts 0 w0) as [o w']. exact H.
 Qed.
 
+(* ------------------------------------------------------------------------------------------ *)
+(* Part E: the statement is about non-trivial runs                                              *)
+(* ------------------------------------------------------------------------------------------ *)
+
+(* (1) The client of PeerProofs2.ex2 (BeginRequest, Params, Stdin "abc", a GetValues query, then Stdin "de" and its end); the
+   handler reads with `read(..).await?` twice and would write "hi" to Stdout.  The transport accepts 3 bytes, fails the next
+   write call (write error or zero-length write) and would accept 9 more.  Every hypothesis of the theorem holds ... *)
+Definition exff_w (fault : N) : world := mkW [] [3; fault; 9] (enc_segs (ex2_sg 1)) [] 0 1 0 false false [].
+Definition exff_scripts : list (list N) := [[10; 64; 10; 64; 6; 6; 2; 104; 105]].
+
+Example exff_hyps fault : fault = W_ZERO \/ fault = W_ERR ->
+  64 < SIZE_LIMIT - 8 /\ world_ok (exff_w fault) /\ wlog (exff_w fault) = [] /\
+  wscript (exff_w fault) = [3] ++ fault :: [9] /\ no_fault [3] /\ plain_fault fault /\
+  scripts_ok false exff_scripts /\ Forall writes_known exff_scripts /\ Forall prop_script exff_scripts.
+Proof.
+  intros Hf. split; [vm_compute; reflexivity|]. split; [vm_compute; repeat constructor|]. split; [reflexivity|].
+  split; [reflexivity|]. split; [constructor; [repeat split; discriminate|constructor]|]. split; [exact Hf|].
+  split.
+  { constructor; [|constructor]. intros role. apply SO_readq. apply SO_readq. apply (SO_write false role _ 6 2 [104; 105]).
+    apply SO_nil. }
+  split.
+  { constructor; [|constructor]. apply WK_readq. apply WK_readq. apply (WK_write 6 2 [104; 105]); [reflexivity|apply WK_nil]. }
+  constructor; [|constructor]. apply PS_readq. apply PS_readq. apply (PS_write 6 2 [104; 105]). apply PS_nil.
+Qed.
+
+(* ... the fault hits Request::poll_output in the middle of the GetValuesResult reply, which the handler's second read was
+   flushing: the read returns the error (kind 7 = transport error / 6 = WriteZero, event [1; 0; kind]), the handler propagates
+   it, the connection task returns; the rest of the write script ([9]) is never consulted, nothing of "hi" is written.  The log
+   holds the first 3 bytes of the reply: framed - the beginning of a record - but not whole *)
+Example exff_framed_not_whole fault : fault = W_ZERO \/ fault = W_ERR ->
+  let r := run_loop (fun b => b) 10 (nb (exff_w fault) + 4) (new_parser 64) exff_scripts 0 (exff_w fault) in
+  fst r = ORet /\ wlog (snd r) = [1; 10; 0] /\ wlog (snd r) = take 3 (write_response 1 10) /\ wscript (snd r) = [9] /\
+  hd [] (tl (events (snd r))) = [1; 0; if fault =? W_ERR then EK_Transport else EK_WriteZero] /\
+  framed (wlog (snd r)) /\ ~ whole (wlog (snd r)).
+Proof.
+  intros [-> | ->]; cbv zeta.
+  - split; [vm_compute; reflexivity|]. split; [vm_compute; reflexivity|]. split; [vm_compute; reflexivity|].
+    split; [vm_compute; reflexivity|]. split; [vm_compute; reflexivity|]. split.
+    + exists (drop 3 (write_response 1 10)). vm_compute. reflexivity.
+    + vm_compute. discriminate.
+  - split; [vm_compute; reflexivity|]. split; [vm_compute; reflexivity|]. split; [vm_compute; reflexivity|].
+    split; [vm_compute; reflexivity|]. split; [vm_compute; reflexivity|]. split.
+    + exists (drop 3 (write_response 1 10)). vm_compute. reflexivity.
+    + vm_compute. discriminate.
+Qed.
+
+(* without the fault (the transport accepts 5 bytes instead) the same run writes the reply, "hi", and the epilogue *)
+Example exff_no_fault_whole :
+  let r := run_loop (fun b => b) 10 (nb (exff_w 5) + 4) (new_parser 64) exff_scripts 0 (exff_w 5) in
+  fst r = ORet /\ whole (wlog (snd r)) /\ len (wlog (snd r)) = 80.
+Proof. vm_compute. repeat split; reflexivity. Qed.
+
+(* framed also by the theorem, for every normalisation function, max_conns and fuel *)
+Example exff_framed_any fault norm maxc fuel : fault = W_ZERO \/ fault = W_ERR ->
+  framed (wlog (snd (run_loop norm maxc fuel (new_parser 64) exff_scripts 0 (exff_w fault)))).
+Proof.
+  intros Hf. destruct (exff_hyps fault Hf) as (H1 & H2 & H3 & H4 & H5 & H6 & H7 & H8 & H9).
+  pose proof (connection_framing_faults norm maxc fuel 64 exff_scripts (exff_w fault) [3] fault [9] H1 H2 H3 H4 H5 H6 H7 H8 H9) as T.
+  destruct (run_loop norm maxc fuel (new_parser 64) exff_scripts 0 (exff_w fault)) as [o w']. exact T.
+Qed.
+
+(* (2) LoopProofs2.exB (C12's example): the keep-alive client of ConnTotal.ex_world, the handler writes "hi" to Stdout through a
+   StreamWriter and exits.  The transport accepts 3 bytes of the Stdout record's header and fails the next write call: the
+   StreamWriter's write returns the error, the task returns with the 3 header bytes in the log - framed, not whole *)
+Example exffB_hyps :
+  0 < SIZE_LIMIT - 8 /\ world_ok (exB_w W_ERR) /\ wlog (exB_w W_ERR) = [] /\
+  wscript (exB_w W_ERR) = [3] ++ W_ERR :: [5; 7] /\ no_fault [3] /\ plain_fault W_ERR /\
+  scripts_ok false [exB_script] /\ Forall writes_known [exB_script] /\ Forall prop_script [exB_script].
+Proof.
+  split; [vm_compute; reflexivity|]. split; [vm_compute; repeat constructor|]. split; [reflexivity|].
+  split; [reflexivity|]. split; [constructor; [repeat split; discriminate|constructor]|]. split; [right; reflexivity|].
+  split.
+  { constructor; [|constructor]. intros role. apply (SO_write false role _ 6 2 [104; 105; 8; 0; 0]).
+    apply SO_exit. left. reflexivity. }
+  split.
+  { constructor; [|constructor]. apply (WK_write 6 2 [104; 105; 8; 0; 0]); [reflexivity|apply WK_exit]. }
+  constructor; [|constructor]. apply (PS_write 6 2 [104; 105; 8; 0; 0]). apply PS_exit.
+Qed.
+
+Example exffB_framed_not_whole :
+  let r := run_loop (fun b => b) 10 (nb (exB_w W_ERR) + 4) (new_parser 0) [exB_script] 0 (exB_w W_ERR) in
+  fst r = ORet /\ wlog (snd r) = [1; 6; 0] /\ wlog (snd r) = take 3 (stream_records RT_Stdout 1 [104; 105]) /\
+  wscript (snd r) = [5; 7] /\ framed (wlog (snd r)) /\ ~ whole (wlog (snd r)).
+Proof.
+  cbv zeta. split; [vm_compute; reflexivity|]. split; [vm_compute; reflexivity|]. split; [vm_compute; reflexivity|].
+  split; [vm_compute; reflexivity|]. split.
+  - exists (drop 3 (stream_records RT_Stdout 1 [104; 105])). vm_compute. reflexivity.
+  - vm_compute. discriminate.
+Qed.
+
+Example exffB_framed_any norm maxc fuel :
+  framed (wlog (snd (run_loop norm maxc fuel (new_parser 0) [exB_script] 0 (exB_w W_ERR)))).
+Proof.
+  destruct exffB_hyps as (H1 & H2 & H3 & H4 & H5 & H6 & H7 & H8 & H9).
+  pose proof (connection_framing_faults norm maxc fuel 0 [exB_script] (exB_w W_ERR) [3] W_ERR [5; 7] H1 H2 H3 H4 H5 H6 H7 H8 H9) as T.
+  destruct (run_loop norm maxc fuel (new_parser 0) [exB_script] 0 (exB_w W_ERR)) as [o w']. exact T.
+Qed.
+
 Print Assumptions connection_framing_faults.
+Print Assumptions exff_framed_not_whole.
+Print Assumptions exff_framed_any.
+Print Assumptions exffB_framed_not_whole.
+Print Assumptions exffB_framed_any.
